@@ -303,6 +303,11 @@ def run(ctx):
             vals = [S.val(o) for o in t["mops"]]
             if any("encode_from_utf8_without_replacement.1" in v for v in vals):
                 adds.append(b)
+    if not adds:
+        # `remaining = &remaining[read..]`: the re-slicing by `read` plays the part of `total_read += read`
+        for b, t in f.calls():
+            if b in body and "Index" in (t.get("callee") or "") and any(re.search(r"RangeFrom\{.*encode_from_utf8_without_replacement\.1\}", S.val(a)) for a in t["args"]):
+                adds.append(b)
     ctx.check(bool(adds) and sw is not None and all(a in dom.get(sw, ()) for a in adds[:1]), "REPL", "total_read += read before match",
               "advance dominates the result match", "no `total_read += read` dominating the match on the encoder result "
               "(unmappable characters would be re-read forever or skipped)", f.loc(), fn=f.name)
@@ -389,4 +394,18 @@ def flow_rules(ctx):
     ctx.check(len(ne) == 1 and bool(nn) and nn.endswith("CodePage::encoding") and na == ["&*p1"], R, "encode: encoder of the page's own encoding", "", "encoder created from %s" % [c[2] for c in ne], g.loc(), fn=g.name)
     if len(enc) == 1:
         cn, ca = call_of(Sg, enc[0][2][1])
-        ctx.check(bool(cn) and "Index" in cn and "RangeFrom{" in ca[1] and enc[0][2][3] == "c:1", R, "encode: feeds the unread rest of the string, last=true", "", "encoder input %s / last flag %s" % (ca, enc[0][2][3]), g.loc(), fn=g.name)
+        rest_ok = bool(cn) and "Index" in cn and "RangeFrom{" in ca[1]
+        if not rest_ok:
+            # `remaining = &remaining[read..]`: the input is a local that starts as the whole string and is re-sliced from `read` after every call
+            mloc = re.fullmatch(r"[&*]*_(\d+)", enc[0][2][1])
+            if mloc:
+                L_ = int(mloc.group(1))
+                vals = [Sg._def_val(d_, L_, 0) for d_ in Sg.du.whole_defs(L_)]
+                init = [v for v in vals if re.fullmatch(r"[&*]*p2", v)]
+                adv = []
+                for v in vals:
+                    cn2, ca2 = call_of(Sg, v.lstrip("&*"))
+                    if cn2 and "Index" in cn2 and len(ca2) == 2 and re.search(r"RangeFrom\{call@%d:.*\.1\}" % enc[0][0], ca2[1]) and re.fullmatch(r"[&*]*_%d" % L_, ca2[0]):
+                        adv.append(v)
+                rest_ok = len(init) == 1 and len(adv) == 1 and len(vals) == 2
+        ctx.check(rest_ok and enc[0][2][3] == "c:1", R, "encode: feeds the unread rest of the string, last=true", "", "encoder input %s / last flag %s" % (ca, enc[0][2][3]), g.loc(), fn=g.name)
